@@ -20,6 +20,30 @@ add("C13", "Hypothesis generated search + exhaustive small-lattice enumeration v
     "Trusted: Python fractions, numpy indexing; cones pointed+solid; lattice spacing >= 1/4 (np.allclose in the naive routine).",
     "DESIGN.md section 3 C13")
 
+add("C12", "Hypothesis generated search + lattice enumeration vs exact rational facet inequalities; angle sweeps vs closed forms",
+    "dominates()/is_inside() on dyadic cones and lattice vectors are compared with W(a-b)>=0 in exact rational arithmetic together with the "
+    "reflexive/transitive/translation/scaling/antisymmetry/batched laws; bundled cones are swept over their parameter ranges "
+    "(theta in (0.5,179.5), ice-cream K=3..40) against closed-form membership, unit-normal, tangency and spacing conditions.",
+    "Trusted: Python fractions; dyadic inputs make the float evaluation exact; 1e-6 degree band around facet directions.",
+    "DESIGN.md section 3 C12")
+add("C16", "model-based testing: generated operation histories vs an independent accumulator (Hypothesis, op list as data)",
+    "Generated add/update/clear/predict/rejected-add histories (indices as lists with repeats and as sets whose iteration order is "
+    "not sorted) are replayed against EmpiricalMeanVarModel and against an independent per-design accumulator; means, population "
+    "variances, noise-variance fallback, untracked defaults, shapes and rejection without state change are compared after every predict.",
+    "Trusted: math.fsum reference; comparison when the model was updated after the last add (the algorithms' protocol).",
+    "DESIGN.md section 3 C16")
+add("C17", "Hypothesis generated cones vs NNLS / least-distance-programming oracles with primal+dual certificates",
+    "alpha, u*, d1 and beta read from the real classes (OrderingCone.alpha, VOGP/VOGP_AD.compute_u_star, ConeTheta2D.beta) are compared "
+    "with Moreau-projection and Lawson-Hanson optima whose primal and dual certificates are verified by plain arithmetic, over bundled cones' "
+    "full parameter ranges and random unit-normal cones in 2-4 dimensions with K>=m facets.",
+    "Trusted: scipy nnls; agreement demanded at 1e-6.", "DESIGN.md section 3 C17")
+add("C20", "Hypothesis generated datasets/queries vs brute-force nearest row; differential decoupled-vs-wrapped under equal seed; statistical law tests; exhaustive bundled datasets",
+    "Noise-free evaluation is compared exactly with the brute-force nearest design, decoupled evaluation with the wrapped problem's output under the "
+    "same seed for every index form, input arrays are compared bit-for-bit before/after, the noise law of 4 routes x 20000 draws is tested against "
+    "Sigma = L L^T with 7-sigma moment bounds and KS, bundled datasets are checked exhaustively, normalise/unnormalise round-trip.",
+    "Trusted: numpy RNG seeding via vopy.utils.set_seed; statistical false-alarm probability < 1e-8 per case; near-tie queries skipped.",
+    "DESIGN.md section 3 C20")
+
 PENDING = {}
 
 
